@@ -19,6 +19,12 @@
 //   buckets triggered by indices < a exist; indices in the gap [b, c) belong to a third party that has
 //   finished before B starts.  No wait loop may spin; the assigned sets are disjoint and complete;
 //   the blocks carved out of one allocation are adjacent and inside the requested size.
+// VF_MODE 2 / 3 are modes 0 / 1 with the index ranges enumerated instead of symbolic: a symbolic selector picks one
+//   (a, len) resp. (a, b, d) combination out of all combinations inside the bound; inside the selected branch the
+//   range is a compile-time constant, so CBMC's symbolic execution keeps every bucket computation concrete and
+//   only the bucket pre-state / path choice reach the SAT solver.  (Modes 0 / 1 give 1.7 M-variable formulas that
+//   do not finish within the time-outs on the shared machine.)  Mode 3: B's range starts where A's ends (what
+//   size_.fetch_add hands out), no gap.
 #include <new>
 #include "../C32/cv_alloc_model.h"
 #include <dispenso/concurrent_vector.h>
@@ -108,20 +114,25 @@ static uint32_t nonnull(Vec& v) {
 }
 
 #define MAXI ((uint64_t)VF_F * 16 - 1)  // indices < 16F: the bucket after the last touched one is still in the table
+#define MAXJ ((uint64_t)VF_F * 8)       // mode 3 bound
 
-extern "C" void vf_main() {
+static void markers_off(Vec& v) {
+  // detach the markers so that the destructor only frees real buffers
+  for (uint32_t k = 2; k < NB; ++k) {
+    if (v.buffers_[k].load(std::memory_order_relaxed) == marker) {
+      v.buffers_[k].store(nullptr, std::memory_order_relaxed);
+      v.cachedPtrs_[k] = nullptr;
+    }
+  }
+}
+
+// ---- mode 0 / 2: one grower, arbitrary environment
+static void one_grower(uint64_t a, uint64_t len, bool single, uint32_t premask) {
   Vec v((size_t)VF_F, dispenso::ReserveTag);
   vf_check(v.firstBucketLen_ == VF_F, "reserving constructor: first bucket length");
   KElem* ptrsA[NB] = {nullptr, nullptr, nullptr, nullptr, nullptr, nullptr};
-  KElem* ptrsB[NB] = {nullptr, nullptr, nullptr, nullptr, nullptr, nullptr};
-#if VF_MODE == 0
-  uint64_t a = vf_range_u64(0, MAXI);
-  uint64_t len = vf_range_u64(0, MAXI);
-  vf_assume(a + len <= MAXI);
-  bool single = vf_nondet_bool();
-  if (single) vf_assume(len == 1);
   for (uint32_t k = 2; k < NB; ++k) {
-    if (vf_nondet_bool()) v.buffers_[k].store(marker, std::memory_order_relaxed);
+    if ((premask >> k) & 1u) v.buffers_[k].store(marker, std::memory_order_relaxed);
   }
   uint32_t pre = nonnull(v);
   uint32_t mask = 0;
@@ -133,12 +144,14 @@ extern "C" void vf_main() {
       vf_check((mask >> k) & 1u, "every bucket whose trigger index lies in the range is assigned by this grower");
     }
   }
-#else
-  uint64_t a = vf_range_u64(0, MAXI), b = vf_range_u64(0, MAXI), c = vf_range_u64(0, MAXI), d = vf_range_u64(0, MAXI);
-  vf_assume(a <= b && b <= c && c <= d);
-  bool singleA = vf_nondet_bool(), singleB = vf_nondet_bool();
-  if (singleA) vf_assume(b == a + 1);
-  if (singleB) vf_assume(d == c + 1);
+  markers_off(v);
+}
+
+// ---- mode 1 / 3: two growers in index order
+static void two_growers(uint64_t a, uint64_t b, uint64_t c, uint64_t d, bool singleA, bool singleB) {
+  Vec v((size_t)VF_F, dispenso::ReserveTag);
+  KElem* ptrsA[NB] = {nullptr, nullptr, nullptr, nullptr, nullptr, nullptr};
+  KElem* ptrsB[NB] = {nullptr, nullptr, nullptr, nullptr, nullptr, nullptr};
   // everything triggered by indices below a exists (the growers of those indices have finished)
   for (uint32_t k = 2; k < NB; ++k) {
     if (trigger(k) < a) v.buffers_[k].store(marker, std::memory_order_relaxed);
@@ -176,17 +189,101 @@ extern "C" void vf_main() {
   }
   // every bucket touched by either range exists now
   uint32_t fin = nonnull(v);
-  uint64_t probe = vf_range_u64(0, MAXI);
-  if ((probe >= a && probe < b) || (probe >= c && probe < d)) {
-    BucketInfo bp = v.bucketAndSubIndex(probe);
-    vf_check((fin >> bp.bucket) & 1u, "every bucket holding a claimed index has been allocated");
+  for (uint32_t k = 0; k < NB; ++k) {
+    bool touched = (startOf(k) < b && startOf(k) + capOf(k) > a && a < b) || (startOf(k) < d && startOf(k) + capOf(k) > c && c < d);
+    if (touched) vf_check((fin >> k) & 1u, "every bucket holding a claimed index has been allocated");
   }
+  markers_off(v);
+}
+
+#if VF_MODE == 2
+static uint32_t g_sel, g_premask;
+static bool g_single;
+template <uint64_t A, uint64_t L, bool Ok = (A + L <= MAXI)>
+struct Lens {
+  static void run() {
+    if (g_sel == A * 64 + L) one_grower(A, L, g_single && L == 1, g_premask);
+    Lens<A, L + 1>::run();
+  }
+};
+template <uint64_t A, uint64_t L>
+struct Lens<A, L, false> {
+  static void run() {}
+};
+template <uint64_t A, bool Ok = (A <= MAXI)>
+struct Starts {
+  static void run() {
+    Lens<A, 0>::run();
+    Starts<A + 1>::run();
+  }
+};
+template <uint64_t A>
+struct Starts<A, false> {
+  static void run() {}
+};
+#elif VF_MODE == 3
+static uint32_t g_sel;
+static bool g_singleA, g_singleB;
+template <uint64_t A, uint64_t B, uint64_t D, bool Ok = (D <= MAXJ)>
+struct Ds {
+  static void run() {
+    if (g_sel == (A * 64 + B) * 64 + D) two_growers(A, B, B, D, g_singleA && B == A + 1, g_singleB && D == B + 1);
+    Ds<A, B, D + 1>::run();
+  }
+};
+template <uint64_t A, uint64_t B, uint64_t D>
+struct Ds<A, B, D, false> {
+  static void run() {}
+};
+template <uint64_t A, uint64_t B, bool Ok = (B <= MAXJ)>
+struct Bs {
+  static void run() {
+    Ds<A, B, B>::run();
+    Bs<A, B + 1>::run();
+  }
+};
+template <uint64_t A, uint64_t B>
+struct Bs<A, B, false> {
+  static void run() {}
+};
+template <uint64_t A, bool Ok = (A <= MAXJ)>
+struct As {
+  static void run() {
+    Bs<A, A>::run();
+    As<A + 1>::run();
+  }
+};
+template <uint64_t A>
+struct As<A, false> {
+  static void run() {}
+};
 #endif
-  // detach the markers so that the destructor only frees real buffers
-  for (uint32_t k = 2; k < NB; ++k) {
-    if (v.buffers_[k].load(std::memory_order_relaxed) == marker) {
-      v.buffers_[k].store(nullptr, std::memory_order_relaxed);
-      v.cachedPtrs_[k] = nullptr;
-    }
-  }
+
+extern "C" void vf_main() {
+#if VF_MODE == 0
+  uint64_t a = vf_range_u64(0, MAXI);
+  uint64_t len = vf_range_u64(0, MAXI);
+  vf_assume(a + len <= MAXI);
+  bool single = vf_nondet_bool();
+  if (single) vf_assume(len == 1);
+  uint32_t premask = vf_range_u32(0, 63);
+  one_grower(a, len, single, premask);
+#elif VF_MODE == 1
+  uint64_t a = vf_range_u64(0, MAXI), b = vf_range_u64(0, MAXI), c = vf_range_u64(0, MAXI), d = vf_range_u64(0, MAXI);
+  vf_assume(a <= b && b <= c && c <= d);
+  bool singleA = vf_nondet_bool(), singleB = vf_nondet_bool();
+  if (singleA) vf_assume(b == a + 1);
+  if (singleB) vf_assume(d == c + 1);
+  two_growers(a, b, c, d, singleA, singleB);
+#elif VF_MODE == 2
+  g_sel = vf_nondet_u32();
+  g_premask = vf_range_u32(0, 63);
+  g_single = vf_nondet_bool();
+  Starts<0>::run();
+#else
+  g_sel = vf_nondet_u32();
+  g_singleA = vf_nondet_bool();
+  g_singleB = vf_nondet_bool();
+  As<0>::run();
+#endif
 }
